@@ -287,7 +287,9 @@ func diff(a, b string, options []jd.Option) (string, bool, error) {
 		if err != nil {
 			return "", false, err
 		}
-		if str != "{}" {
+		// A non-empty merge diff can render as {} (a non-object replaced
+		// by an empty object), so look at the diff, not at its rendering.
+		if len(diff) > 0 {
 			haveDiff = true
 		}
 	default:
